@@ -93,7 +93,7 @@ pub fn replacement_faults(image: &Value, leaf: &image::Leaf, rng: &mut Rng, all_
             // numbers the verifier computes with: a change in the high part only (a conversion that
             // keeps the low machine word must not make it invisible)
             if is_numeric_field(&leaf.path) {
-                for (k, d) in [("plus2^64", models::pow2(64)), ("plus2^128", models::pow2(128)), ("plus2^32", models::pow2(32))] {
+                for (k, d) in [("plus2^64", models::pow2(64)), ("plus2^128", models::pow2(128)), ("plus2^32", models::pow2(32)), ("plus-ord2", models::exponent_aliases(0)[0])] {
                     out.push((k.to_string(), Fault::Set { path: path.clone(), value: image::felt_hex(&(f + d)) }));
                 }
             }
@@ -189,6 +189,10 @@ pub fn extreme_felts() -> Vec<(&'static str, Felt)> {
         ("2^192+5", models::pow2(192) + Felt::from(5u64)),
         ("p-1", Felt::ZERO - Felt::ONE),
         ("p-2", Felt::ZERO - Felt::TWO),
+        // aliases of small exponents: 2^(e + ord 2) = 2^e
+        ("ord2+1", models::exponent_aliases(1)[0]),
+        ("ord2+4", models::exponent_aliases(4)[0]),
+        ("ord2+20", models::exponent_aliases(20)[0]),
     ]
 }
 
